@@ -184,7 +184,10 @@ NEG = re.compile(r"^-\d+$|^-\d*\.\d+$")
 
 
 def plain(t):
-    return t == "" or t[0] != "-" or t == "-" or bool(NEG.match(t)) or " " in t
+    """certainly an argument for argparse.  A token that starts with `-` and contains a blank is NOT certain: `--opt=v w` and
+    `-o v` (one token) are matched as options before argparse looks for the blank (false alarm of the `eq+dd` rewriting,
+    found by `vp check`, seed 1: `stone 2 -- grid 2 3 --sparse=2 ` is not a respelling of `stone 2 grid 2 3 --sparse "2 "`)"""
+    return t == "" or t[0] != "-" or t == "-" or bool(NEG.match(t))
 
 
 def top_strings(kind):
